@@ -74,6 +74,7 @@ static LD dist (const M3& a, const M3& b)
 
 static std::mt19937_64 rng;
 static long evals = 0, failures = 0, gimbalExact = 0, gimbalNear = 0, flipTaken = 0, flipNotTaken = 0;
+static long otherOrderConverted = 0, otherOrderSame = 0, foreignQuat = 0, foreignSignedPerm = 0, foreignSignedPermGimbal = 0, foreignProduct = 0, foreignAxisAngle = 0;
 static std::map<std::string, double> worst; // section -> worst error in units of its bound's scale
 static void note (const std::string& sec, double v) { if (v > worst[sec]) worst[sec] = v; }
 template <class T> static const char* tn () { return sizeof (T) == 4 ? "float" : "double"; }
@@ -179,6 +180,97 @@ template <class T> static void oneTriple (const OrdInfo& o, T x, T y, T z, bool 
     }
 }
 
+// H. `extract` on rotation matrices that were NOT produced by this library's toMatrix33 of the same order ("any rotation
+//    matrix"): unit quaternions, the 24 signed-permutation rotations (exact 0/±1 entries in every position, gimbal-locked
+//    for many orders), products of two builders of different orders, Matrix44::setAxisAngle.  Oracle unchanged:
+//    oracle (o, extracted angles) ≈ M, to 24 eps plus the input's own orthonormality defect.
+template <class T> static LD orthoDefect (const Matrix33<T>& M)
+{
+    LD d = 0;
+    for (int i = 0; i < 3; ++i)
+        for (int j = 0; j < 3; ++j)
+        {
+            LD s = 0;
+            for (int k = 0; k < 3; ++k) s += (LD) M[i][k] * (LD) M[j][k];
+            d = std::max (d, fabsl (s - (i == j ? 1 : 0)));
+        }
+    return d;
+}
+template <class T> static void foreignOne (const OrdInfo& o, const Matrix33<T>& M, const char* sec, const char* noteKey)
+{
+    typedef Euler<T> E;
+    const LD eps = std::numeric_limits<T>::epsilon ();
+    typename E::Order ord = (typename E::Order) o.code;
+    ++evals;
+    E e3 (ord), e4 (ord);
+    e3.extract (M);
+    Matrix44<T> M4 (M[0][0], M[0][1], M[0][2], 0, M[1][0], M[1][1], M[1][2], 0, M[2][0], M[2][1], M[2][2], 0, 0, 0, 0, 1);
+    e4.extract (M4);
+    bool same = (e3.x == e4.x || (e3.x != e3.x && e4.x != e4.x)) && (e3.y == e4.y || (e3.y != e3.y && e4.y != e4.y)) &&
+                (e3.z == e4.z || (e3.z != e3.z && e4.z != e4.z));
+    if (!same) fail<T> ("extract33-vs-extract44", o, e3.x, e3.y, e3.z, 1, 0, sec);
+    LD def = orthoDefect (M);
+    LD b = 24 * eps + 4 * def;
+    LD d = dist (oracle (o, e3.x, e3.y, e3.z), toLD (M));
+    LD dr = dist (E (e3.x, e3.y, e3.z, ord).toMatrix33 (), toLD (M));
+    note (noteKey, (double) (std::max (d, dr) / eps));
+    if (!(d <= b)) fail<T> (sec, o, e3.x, e3.y, e3.z, (double) d, (double) b, "oracle(extracted) vs input matrix");
+    if (!(dr <= b)) fail<T> (sec, o, e3.x, e3.y, e3.z, (double) dr, (double) b, "real toMatrix33(extracted) vs input matrix");
+    // constructor form
+    E ec (M, ord);
+    if (!(ec.x == e3.x || (ec.x != ec.x && e3.x != e3.x)) || !(ec.y == e3.y || (ec.y != ec.y && e3.y != e3.y)) || ec.order () != ord)
+        fail<T> ("ctor-matrix", o, e3.x, e3.y, e3.z, 1, 0, sec);
+}
+template <class T> static void foreignAll (int n)
+{
+    std::uniform_real_distribution<double> U (-1.0, 1.0);
+    // the 24 signed-permutation rotations, every order
+    int perms[6][3] = {{0, 1, 2}, {0, 2, 1}, {1, 0, 2}, {1, 2, 0}, {2, 0, 1}, {2, 1, 0}};
+    for (int oi = 0; oi < 24; ++oi)
+        for (int p = 0; p < 6; ++p)
+            for (int sg = 0; sg < 8; ++sg)
+            {
+                Matrix33<T> M (0, 0, 0, 0, 0, 0, 0, 0, 0);
+                for (int r = 0; r < 3; ++r) M[r][perms[p][r]] = ((sg >> r) & 1) ? T (-1) : T (1);
+                if (M.determinant () != T (1)) continue;
+                ++foreignSignedPerm;
+                const OrdInfo& o = ORD[oi];
+                // gimbal-locked for this order: non-repeated |M[i][k]| = 1, repeated |M[i][i]| = 1 (k = the third decoded axis)
+                int kk = 3 - o.i - o.j;
+                if (o.rep ? (M[o.i][o.i] != 0) : (M[o.i][kk] != 0)) ++foreignSignedPermGimbal;
+                foreignOne<T> (o, M, "extract-foreign-signedperm", "foreign_signedperm_over_eps");
+            }
+    for (int oi = 0; oi < 24; ++oi)
+    {
+        const OrdInfo& o = ORD[oi];
+        for (int t = 0; t < n; ++t)
+        {
+            // random unit quaternion (normalised in T)
+            Quat<T> q ((T) U (rng), (T) U (rng), (T) U (rng), (T) U (rng));
+            if (q.length () < T (0.1)) continue;
+            q.normalize ();
+            ++foreignQuat;
+            foreignOne<T> (o, q.toMatrix33 (), "extract-foreign-quat", "foreign_quat_over_eps");
+            // product of two builders of different orders (rounded product)
+            const OrdInfo &o1 = ORD[rng () % 24], &o2 = ORD[rng () % 24];
+            Matrix33<T> P = Euler<T> ((T) (U (rng) * 3), (T) (U (rng) * 3), (T) (U (rng) * 3), (typename Euler<T>::Order) o1.code).toMatrix33 () *
+                            Euler<T> ((T) (U (rng) * 3), (T) (U (rng) * 3), (T) (U (rng) * 3), (typename Euler<T>::Order) o2.code).toMatrix33 ();
+            ++foreignProduct;
+            foreignOne<T> (o, P, "extract-foreign-product", "foreign_product_over_eps");
+            // Matrix44::setAxisAngle about a random axis (every third time about a coordinate axis by a multiple of π/2: near-exact gimbal)
+            Vec3<T> ax ((T) U (rng), (T) U (rng), (T) U (rng));
+            T       ang = (T) (U (rng) * 3.1);
+            if (t % 3 == 0) { ax = Vec3<T> (0, 0, 0); ax[rng () % 3] = 1; ang = (T) (M_PI / 2 * (double) ((long) (rng () % 8) - 4)); }
+            if (ax.length () < T (0.1)) continue;
+            Matrix44<T> A;
+            A.setAxisAngle (ax, ang);
+            Matrix33<T> A3 (A[0][0], A[0][1], A[0][2], A[1][0], A[1][1], A[1][2], A[2][0], A[2][1], A[2][2]);
+            ++foreignAxisAngle;
+            foreignOne<T> (o, A3, "extract-foreign-axisangle", "foreign_axisangle_over_eps");
+        }
+    }
+}
+
 // D. makeNear / nearestRotation / simpleXYZRotation: the six non-repeated fixed-axis orders
 template <class T> static void nearTriple (const OrdInfo& o, T x, T y, T z, T tx, T ty, T tz)
 {
@@ -212,6 +304,16 @@ template <class T> static void nearTriple (const OrdInfo& o, T x, T y, T z, T tx
         note ("makeNear_other_order_rotation_over_epsf_amax", (double) (d4 / (epsf * amax)));
         if (!(d4 <= b)) fail<T> ("makeNear-rotation-other-order", o, x, y, z, (double) d4, (double) b, other.name);
         if (n2.order () != ord) fail<T> ("makeNear-order", o, x, y, z, 1, 0, other.name);
+        // … and every angle within π of the target EXPRESSED IN e's ORDER (what the re-ordering constructor returns; that it
+        // is the same rotation as t2 is section C); the converted angles are O(π), so the scale is max(1, |x|,|y|,|z|)
+        E  t2c = (other.code == o.code) ? t2 : E (t2, ord); // same order: makeNear uses the target's angles as they are
+        LD amax2 = 1;
+        for (T v : {x, y, z, t2c.x, t2c.y, t2c.z}) amax2 = std::max (amax2, fabsl ((LD) v));
+        LD lim2 = PI_LD + 4 * epsf * amax2;
+        LD w4 = std::max (fabsl ((LD) n2.x - t2c.x), std::max (fabsl ((LD) n2.y - t2c.y), fabsl ((LD) n2.z - t2c.z)));
+        note ("makeNear_other_order_excess_over_pi_in_epsf_amax", (double) ((w4 - PI_LD) / (epsf * amax2)));
+        if (!(w4 <= lim2)) fail<T> ("makeNear-within-pi-other-order", o, x, y, z, (double) w4, (double) lim2, other.name);
+        if (other.code != o.code) ++otherOrderConverted; else ++otherOrderSame;
     }
     // nearestRotation on XYZ-layout vectors
     Vec3<T> xyz = e.toXYZVector (), txyz = t.toXYZVector (), s = xyz;
@@ -337,6 +439,7 @@ template <class T> static void runAll (int n)
             }
         }
     }
+    foreignAll<T> (std::max (1, n / 4));
     for (int t = 0; t < 40 * n; ++t)
     {
         double x;
@@ -358,6 +461,8 @@ int main (int argc, char** argv)
     rng.seed (seed * 7919ul + 11);
     runAll<double> (n);
     runAll<float> (n);
+    printf ("HITS other_order_converted=%ld other_order_same=%ld foreign_quat=%ld foreign_signedperm=%ld foreign_signedperm_gimbal=%ld foreign_product=%ld foreign_axisangle=%ld\n",
+            otherOrderConverted, otherOrderSame, foreignQuat, foreignSignedPerm, foreignSignedPermGimbal, foreignProduct, foreignAxisAngle);
     printf ("RESIDUE evals=%ld failures=%ld gimbal_exact=%ld gimbal_near=%ld flip_taken=%ld flip_not_taken=%ld", evals, failures, gimbalExact, gimbalNear, flipTaken, flipNotTaken);
     for (auto& kv : worst) printf (" %s=%.4g", kv.first.c_str (), kv.second);
     printf ("\n");
